@@ -254,17 +254,40 @@ pub struct SplitReader {
     boundaries: Vec<usize>,
     max_chunk: usize,
     pub reads: usize,
+    /// a scheduling point owned by the harness: what happens when read call number `.0` is made
+    pub gate: Option<(usize, Gate)>,
+}
+
+/// What a gated reader does at its scheduling point.
+pub enum Gate {
+    /// tell the scheduler this thread is parked inside its reader, then wait to be resumed
+    Park { parked: std::sync::mpsc::SyncSender<()>, resume: std::sync::mpsc::Receiver<()> },
+    /// the reader itself fails by panicking (a faulty `Read` implementation of another caller)
+    Panic,
 }
 
 impl SplitReader {
     pub fn new(data: Vec<u8>, boundaries: Vec<usize>, max_chunk: usize) -> Self {
-        SplitReader { data, pos: 0, boundaries, max_chunk: max_chunk.max(1), reads: 0 }
+        SplitReader { data, pos: 0, boundaries, max_chunk: max_chunk.max(1), reads: 0, gate: None }
+    }
+    pub fn gated(data: Vec<u8>, at_read: usize, gate: Gate) -> Self {
+        SplitReader { data, pos: 0, boundaries: vec![], max_chunk: usize::MAX, reads: 0, gate: Some((at_read, gate)) }
     }
 }
 
 impl Read for SplitReader {
     fn read(&mut self, buf: &mut [u8]) -> std::io::Result<usize> {
         self.reads += 1;
+        if self.gate.as_ref().map(|g| g.0 == self.reads).unwrap_or(false) {
+            match self.gate.take() {
+                Some((_, Gate::Park { parked, resume })) => {
+                    let _ = parked.send(());
+                    let _ = resume.recv();
+                }
+                Some((_, Gate::Panic)) => panic!("harness: injected reader panic at read call {}", self.reads),
+                None => {}
+            }
+        }
         if self.reads > 64 + 16 * self.data.len() {
             return Err(std::io::Error::other("fuel exhausted"));
         }
@@ -349,4 +372,126 @@ pub fn short_read_check<T: PartialEq>(
         }
     }
     n
+}
+
+
+/// Two-actor interleavings at the reader seam (preemption bound 1, the scheduling points being the
+/// `read` calls the decoder makes on the caller's reader).
+///
+/// Schedule P(k): actor A decodes `bytes` from a reader that parks inside read call k; while A is
+/// parked, actor B decodes the same bytes from an ordinary reader on another thread to completion;
+/// A is resumed. Both must return what a solo decode returns, and B must finish while A is parked
+/// (a slow socket in one caller must not stall an in-memory decode in another).
+/// Schedule F(k): A's reader panics inside read call k (A unwinds); afterwards B decodes on a fresh
+/// thread and must return the solo result.
+/// k ranges over every read call of the solo run (a prefix and a stride beyond `max_points`).
+/// Returns the number of schedules run.
+pub fn two_actor_check<T: PartialEq + Send + std::fmt::Debug>(
+    ctx: &crate::core::Ctx,
+    what: &str,
+    bytes: &[u8],
+    max_points: usize,
+    decode: impl Fn(&mut SplitReader) -> Option<T> + Sync,
+    witness: impl Fn(&str, usize) -> serde_json::Value,
+) -> u64 {
+    use crate::core::{guarded, Caught};
+    use std::sync::mpsc::{channel, sync_channel, RecvTimeoutError};
+    use std::time::Duration;
+    const DEADLINE: Duration = Duration::from_secs(20);
+    let mut solo_reader = SplitReader::new(bytes.to_vec(), vec![], usize::MAX);
+    let base = match guarded(|| decode(&mut solo_reader)) {
+        Caught::Ret(b) => b,
+        Caught::Panic(_) => return 0, // reported by the main checks
+    };
+    let reads = solo_reader.reads;
+    let mut points: Vec<usize> = (1..=reads.min(max_points)).collect();
+    if reads > max_points {
+        let stride = ((reads - max_points) / max_points.max(1)).max(1);
+        let mut k = max_points + stride;
+        while k <= reads {
+            points.push(k);
+            k += stride;
+        }
+        points.push(reads);
+        points.dedup();
+    }
+    let mut n = 0u64;
+    let mut blocked_reported = false;
+    let decode = &decode;
+    for &k in &points {
+        // ---- P(k)
+        n += 1;
+        let (a_res, b_res, blocked) = std::thread::scope(|s| {
+            let (ptx, prx) = sync_channel::<()>(1);
+            let (rtx, rrx) = channel::<()>();
+            let ha = s.spawn(move || guarded(|| decode(&mut SplitReader::gated(bytes.to_vec(), k, Gate::Park { parked: ptx, resume: rrx }))));
+            // parked, or A finished without reaching read k (the sender is dropped with the reader)
+            match prx.recv_timeout(DEADLINE) {
+                Ok(()) | Err(RecvTimeoutError::Disconnected) => {}
+                Err(RecvTimeoutError::Timeout) => crate::core::machinery("two_actor_check: actor A neither parked nor finished"),
+            }
+            let (btx, brx) = channel();
+            let hb = s.spawn(move || {
+                let r = guarded(|| decode(&mut SplitReader::new(bytes.to_vec(), vec![], usize::MAX)));
+                let _ = btx.send(());
+                r
+            });
+            let blocked = if blocked_reported { let _ = brx.recv(); false } else { brx.recv_timeout(DEADLINE).is_err() };
+            let _ = rtx.send(());
+            let a = ha.join().unwrap_or_else(|_| crate::core::machinery("two_actor_check: actor A thread died"));
+            let b = hb.join().unwrap_or_else(|_| crate::core::machinery("two_actor_check: actor B thread died"));
+            (a, b, blocked)
+        });
+        if blocked && !blocked_reported {
+            blocked_reported = true;
+            ctx.fail(
+                &format!("interleaving:{what}:blocked_while_another_decode_waits_on_its_reader"),
+                || format!("{what}: while one thread's decode was parked inside read call {k} of its own reader, a decode of a complete in-memory input on another thread did not return within {DEADLINE:?}"),
+                || witness("park", k),
+            );
+        }
+        for (who, r) in [("parked", &a_res), ("other", &b_res)] {
+            match r {
+                Caught::Ret(v) if *v == base => {}
+                other => ctx.fail(
+                    &format!("interleaving:{what}:{who}_thread_result_differs_from_solo"),
+                    || format!("{what}: thread A parked in read call {k} while thread B decoded; {who} thread returned {:?}, a solo decode returns {:?}", summarize(other), summarize_opt(&base)),
+                    || witness("park", k),
+                ),
+            }
+        }
+        // ---- F(k)
+        n += 1;
+        let after = std::thread::scope(|s| {
+            let ha = s.spawn(move || guarded(|| decode(&mut SplitReader::gated(bytes.to_vec(), k, Gate::Panic))));
+            let _ = ha.join();
+            let hb = s.spawn(move || guarded(|| decode(&mut SplitReader::new(bytes.to_vec(), vec![], usize::MAX))));
+            hb.join().unwrap_or_else(|_| crate::core::machinery("two_actor_check: actor B thread died"))
+        });
+        match &after {
+            Caught::Ret(v) if *v == base => {}
+            other => ctx.fail(
+                &format!("interleaving:{what}:decode_differs_after_another_threads_reader_panicked"),
+                || format!("{what}: after another thread's reader panicked inside read call {k} of its decode, a decode of the same well-formed input returned {:?}", summarize(other)),
+                || witness("panic", k),
+            ),
+        }
+    }
+    n
+}
+
+fn summarize<T: std::fmt::Debug>(c: &crate::core::Caught<Option<T>>) -> String {
+    let s = match c {
+        crate::core::Caught::Ret(Some(v)) => format!("Some({v:?})"),
+        crate::core::Caught::Ret(None) => "an error".to_string(),
+        crate::core::Caught::Panic(p) => format!("panic: {p}"),
+    };
+    s.chars().take(240).collect()
+}
+
+fn summarize_opt<T: std::fmt::Debug>(v: &Option<T>) -> String {
+    match v {
+        Some(v) => format!("Some({v:?})").chars().take(240).collect(),
+        None => "an error".to_string(),
+    }
 }
